@@ -104,7 +104,12 @@ def exec_case(case):
                 r = M.processing.shortest_path(m, ev["start"], t, weights=w)
                 e["ret"] = [[int(k), [int(x) for x in v]] for k, v in r.items()]
             elif ev["op"] == "to_vertex_set":
-                ind, p = M.processing.shortest_path_to_vertex_set(m, ev["start"], list(ev["targets"]), weights=w)
+                if ev.get("export", 0):
+                    # the same query with the optional polyline of the path: the answer must be the same path
+                    r3 = M.processing.shortest_path_to_vertex_set(m, ev["start"], list(ev["targets"]), weights=w, export_path_mesh=True)
+                    ind, p = r3[0], r3[1]
+                else:
+                    ind, p = M.processing.shortest_path_to_vertex_set(m, ev["start"], list(ev["targets"]), weights=w)
                 e["ret"] = [int(ind), [int(x) for x in p]]
             elif ev["op"] == "to_border":
                 p = M.processing.shortest_path_to_border(m, ev["start"], weights=w)
@@ -147,7 +152,7 @@ def _events(rng, n, kinds, border=False, lengths_ok=True):
             base.update(op="shortest_path", targets=rng.sample(range(n), k), single=int(k == 1 and rng.random() < 0.6), as_set=rng.randint(0, 1))
         elif r < 0.85 or not border:
             k = rng.choice([1, 1, 2, 3, min(4, n)])
-            base.update(op="to_vertex_set", targets=rng.sample(range(n), min(k, n)))
+            base.update(op="to_vertex_set", targets=rng.sample(range(n), min(k, n)), export=rng.choice([0, 0, 1]))
             if rng.random() < 0.2:
                 base["targets"][0] = base["start"]
                 base["targets"] = list(dict.fromkeys(base["targets"]))
